@@ -307,6 +307,12 @@ func (c *Chunk) ReadFrom(r io.Reader) (int64, error) {
 	}
 
 	bitsForHeight := bits.Len( /* chunk height in blocks */ uint(len(c.Sections))*16 + 1)
+	for _, hm := range [][]uint64{heightmaps.MotionBlocking, heightmaps.WorldSurface} {
+		// NewBitStorage panics on a size mismatch; the maps come from the peer
+		if want := calcBitStorageSize(bitsForHeight, 16*16); hm != nil && len(hm) != want {
+			return n, newBitStorageErr{ArrlLen: len(hm), WantLen: want}
+		}
+	}
 	c.HeightMaps.MotionBlocking = NewBitStorage(bitsForHeight, 16*16, heightmaps.MotionBlocking)
 	c.HeightMaps.WorldSurface = NewBitStorage(bitsForHeight, 16*16, heightmaps.WorldSurface)
 
